@@ -52,16 +52,16 @@ def history_check(prop, tier, seed, shapes, monitors, modules, profiles, p_inval
 
 
 def check_C01(tier, seed):
-    return history_check("C01", tier, seed, gen.ALL_SHAPES, [mon_c01], ["Soa.Props.C01", "Soa.Props.C01Extracted", "Soa.Lemmas.SkelTie", "Soa.Lemmas.SkelRead.C01", "Soa.Lemmas.LoopTie", "Soa.Lemmas.GenTie"], ["debug", "release"])
+    return history_check("C01", tier, seed, gen.ALL_SHAPES, [mon_c01], ["Soa.Props.C01", "Soa.Props.C01Extracted", "Soa.Lemmas.SkelTie", "Soa.Lemmas.SkelRead.C01", "Soa.Lemmas.LoopTie", "Soa.Lemmas.LoopTieW", "Soa.Lemmas.GenTie"], ["debug", "release"])
 
 def check_C02(tier, seed):
-    return history_check("C02", tier, seed, gen.ALL_SHAPES, [mon_c02], ["Soa.Props.C02", "Soa.Props.World", "Soa.Props.C01Extracted", "Soa.Lemmas.SkelTie", "Soa.Lemmas.SkelRead.C01", "Soa.Lemmas.LoopTie", "Soa.Lemmas.GenTie"], ["debug", "release"], p_invalid=0.4)
+    return history_check("C02", tier, seed, gen.ALL_SHAPES, [mon_c02], ["Soa.Props.C02", "Soa.Props.World", "Soa.Props.C01Extracted", "Soa.Lemmas.SkelTie", "Soa.Lemmas.SkelRead.C01", "Soa.Lemmas.LoopTie", "Soa.Lemmas.LoopTieW", "Soa.Lemmas.GenTie"], ["debug", "release"], p_invalid=0.4)
 
 def check_C03(tier, seed):
-    return history_check("C03", tier, seed, gen.ALL_SHAPES, [mon_c03], ["Soa.Props.C03", "Soa.Props.ExtractedCorollaries", "Soa.Lemmas.SkelTie", "Soa.Lemmas.SkelRead.C01", "Soa.Lemmas.LoopTie", "Soa.Lemmas.GenTie"], ["debug", "release"], p_invalid=0.3)
+    return history_check("C03", tier, seed, gen.ALL_SHAPES, [mon_c03], ["Soa.Props.C03", "Soa.Props.ExtractedCorollaries", "Soa.Lemmas.SkelTie", "Soa.Lemmas.SkelRead.C01", "Soa.Lemmas.LoopTie", "Soa.Lemmas.LoopTieW", "Soa.Lemmas.GenTie"], ["debug", "release"], p_invalid=0.3)
 
 def check_C08(tier, seed):
-    return history_check("C08", tier, seed, gen.DROP_SHAPES, [mon_c08], ["Soa.Props.C08", "Soa.Props.ExtractedCorollaries", "Soa.Lemmas.SkelTie", "Soa.Lemmas.SkelRead.C01", "Soa.Lemmas.LoopTie", "Soa.Lemmas.GenTie"], ["debug", "release"])
+    return history_check("C08", tier, seed, gen.DROP_SHAPES, [mon_c08], ["Soa.Props.C08", "Soa.Props.ExtractedCorollaries", "Soa.Lemmas.SkelTie", "Soa.Lemmas.SkelRead.C01", "Soa.Lemmas.LoopTie", "Soa.Lemmas.LoopTieW", "Soa.Lemmas.GenTie"], ["debug", "release"])
 
 
 def check_C04(tier, seed):
@@ -193,7 +193,7 @@ def check_C16(tier, seed):
     L = 4 if tier == "quick" else 6
     shapes = gen.ALL_SHAPES if tier != "quick" else ["One", "Two", "Flat4", "Heap", "DrH", "DrN", "PlC", "NMid", "NMidF", "Deep"]
     build_harness("debug"); build_harness("release")
-    proof = prove("C16", ["Soa.Props.C16", "Soa.Props.ExtractedCorollaries", "Soa.Lemmas.LoopTie", "Soa.Lemmas.GenTie"])
+    proof = prove("C16", ["Soa.Props.C16", "Soa.Props.ExtractedCorollaries", "Soa.Lemmas.LoopTie", "Soa.Lemmas.LoopTieW", "Soa.Lemmas.GenTie"])
     retain, others = gen.fault_scenarios(shapes, L, seed)
     suites = [run_suite("C16", retain, ["debug", "release"], [mon_c16], "retain", compare_model=True),
               run_suite("C16", others, ["debug"] if tier == "quick" else ["debug", "release"], [mon_c16], "others", compare_model=False)]
